@@ -66,6 +66,18 @@ def plan(tier, seed):
     for fn in ("water_trajectory.xyz", "water_trajectory.pdb", "example.sdf", "caffeine.mol2", "peroxide_opt.fchk"):
         for t in go.MANY_FORMATS:
             cases.append({"src": fn, "srcfmt": None, "explicit_in": False, "target": t, "opts": {"c": False, "m": True, "i": False, "o": True}})
+    # names that are symbolic links: the name typed decides the format (as in the API), not the name of the link's target
+    for fn, link in (("water.xyz", "latest.pdb"), ("water_single_model.pdb", "latest.xyz"), ("water.xyz", "current_frame"),
+                     ("example.sdf", "mols.mol2")):
+        for t in ("xyz", "pdb", "sdf"):
+            for m in (False, True):
+                cases.append({"src": fn, "srcfmt": None, "explicit_in": False, "target": t, "link_src": link,
+                              "opts": {"c": False, "m": m, "i": False, "o": False}})
+    for fn in ("water.xyz", "water_trajectory.xyz"):
+        for t, store in (("xyz", "result.pdb"), ("pdb", "result.xyz"), ("sdf", "object_3f9a1c07")):
+            for m in (False, True):
+                cases.append({"src": fn, "srcfmt": None, "explicit_in": False, "target": t, "link_out": store,
+                              "opts": {"c": False, "m": m, "i": False, "o": False}})
     # numerically pathological but syntactically valid inputs: the CLI's floating-point trapping may turn them into errors
     # (admitted), but never into a reported success with other content
     for name in sorted(pathological_sources()):
@@ -185,6 +197,11 @@ def run_case(case):
             src = os.path.join(bootstrap.DATA_DIR, case["src"])
             srcfmt, explicit_in = case["srcfmt"], case["explicit_in"]
             label = case["src"]
+            if case.get("link_src"):
+                link = os.path.join(root, case["link_src"])
+                os.symlink(src, link)
+                src, label = link, f"{case['link_src']} -> {case['src']}"
+                counters["symlink_cases"] = 1
         target = case["target"]
         known_target = target in iodata.api.FORMAT_MODULES
         give_o = opts["o"] or target == "json_qcschema" or not known_target or not go.EXT.get(target)
@@ -205,7 +222,15 @@ def run_case(case):
         tag = f"{label} -> {target} {' '.join(args)}"
         # (a) CLI
         out_cli = os.path.join(root, "cli", outname)
-        os.makedirs(os.path.dirname(out_cli))
+        os.makedirs(os.path.dirname(out_cli), exist_ok=True)
+        if case.get("link_out"):
+            # every output name is a symbolic link into a store directory whose file has another name
+            counters["symlink_cases"] = 1
+            for which in ("cli", "api", "cv"):
+                os.makedirs(os.path.join(root, which, "store"), exist_ok=True)
+                os.makedirs(os.path.join(root, which), exist_ok=True)
+                os.symlink(os.path.join(root, which, "store", case["link_out"]), os.path.join(root, which, outname))
+            label += f" (output link -> store/{case['link_out']})"
         with open(out_cli, "wb") as fh:
             fh.write(SENTINEL)
         env = dict(os.environ, PYTHONPATH=bootstrap.REPO, PYTHONHASHSEED="0")
@@ -214,7 +239,7 @@ def run_case(case):
         cli_bytes = open(out_cli, "rb").read() if os.path.exists(out_cli) else None
         # (b) API
         out_api = os.path.join(root, "api", outname)
-        os.makedirs(os.path.dirname(out_api))
+        os.makedirs(os.path.dirname(out_api), exist_ok=True)
         with open(out_api, "wb") as fh:
             fh.write(SENTINEL)
         api_outcome, api_exc = api_run(src, infmt, out_api, outfmt, opts["m"], opts["c"])
@@ -222,7 +247,7 @@ def run_case(case):
         api_bytes = open(out_api, "rb").read() if os.path.exists(out_api) else None
         # (c) convert()
         out_cv = os.path.join(root, "cv", outname)
-        os.makedirs(os.path.dirname(out_cv))
+        os.makedirs(os.path.dirname(out_cv), exist_ok=True)
         with warnings.catch_warnings():
             warnings.simplefilter("ignore")
             try:
